@@ -143,6 +143,8 @@ type Worker struct {
 	cvc5        *proc
 	forceSolver string
 	i           *interpreter
+	z3uses      int
+	cvcuses     int
 }
 
 func (w *Worker) getCVC5() *proc {
@@ -445,6 +447,9 @@ func (e *Explorer) done(res *PathResult, pending [][]int64) {
 		}
 	}
 	n := atomic.AddInt64(&e.paths, 1)
+	if n%1000 == 0 && os.Getenv("VCHECK_PROGRESS") != "" {
+		fmt.Fprintf(os.Stderr, "  ... %d paths, %d pending prefixes, %d queries\n", n, len(e.work), atomic.LoadInt64(&Stats.Queries))
+	}
 	if e.opt.MaxPaths > 0 && n >= e.opt.MaxPaths {
 		e.stop = true
 	}
@@ -472,7 +477,14 @@ func (e *Explorer) Run(ld *Loaded, harness string) ([]*PathResult, []string) {
 		go func(id int) {
 			defer wg.Done()
 			w := &Worker{id: id, ex: e, forceSolver: e.opt.ForceSolver}
-			sv := "z3"
+			// z3 5.1.0 ("z3-new") is the default bit-vector back end: 4.8.12
+			// takes tens of seconds for get-value after check-sat on the
+			// if-then-else chains this engine produces. VCHECK_BV_SOLVER=z3
+			// selects the old one (used by the cross-check).
+			sv := "z3-new"
+			if v := os.Getenv("VCHECK_BV_SOLVER"); v != "" {
+				sv = v
+			}
 			if e.opt.ForceSolver != "" {
 				sv = e.opt.ForceSolver
 			}
